@@ -573,7 +573,8 @@ Proof.
                (outer (emb h s) + Z.of_nat (length (frames (vars (emb h s)))) + 4)) with (emb h1 s0).
   assert (Hg : good h1 c None) by (split; [exact Hm|exact I]).
   pose proof (HB false c None body h1 s0 Hg eq_refl) as Hcall. cbn [option_map] in Hcall. rewrite Hcall.
-  destruct (scl (SBody false c None body) s0) as [s2| | |]; cbn [bind omap]; try reflexivity.
+  unfold smacro. subst s0.
+  destruct (scl (SBody false c None body) _) as [s2| | |]; cbn [bind omap]; try reflexivity.
   change (outs (emb h1 s2)) with [Some (sout s2)]. cbn iota. apply emit_emb.
 Qed.
 
@@ -642,7 +643,7 @@ Proof.
     rewrite (sim_include false _ [e] false h2 (spush [] s0) eq_refl).
     unfold import_scope. fold s0.
     destruct (render_include E scl false [e] false (spush [] s0)) as [s2| | |]; cbn [bind omap keep]; try reflexivity.
-    unfold end_capture. cbn [outs emb h2 h_top h_outs bind].
+    unfold end_capture. cbn [outs emb h2 h_top h_outs bind fst snd].
     change (top_frame _) with (match frames (svars s2) with f :: _ => Ok f | [] => Panic end).
     destruct (frames (svars s2)) as [|ex r] eqn:Ef; [reflexivity|]. cbn [bind].
     change (with_outs ((if h_top h then Some (sout s) else None) :: h_outs h) (emb h2 s2))
@@ -674,6 +675,17 @@ Proof.
   - (* IKeys *) change (vars (emb h s)) with (svars s).
     destruct (lookup m (svars s)) as [[| | |kvs capm]|]; try reflexivity.
     rewrite push_frame_emb. cbn [bind]. rewrite emit_emb, emit_keys_eq. reflexivity.
+  - (* ISetBlock *)
+    set (h2 := mkHid (h_blocks h) (h_loaded h) true ((if h_top h then Some (sout s) else None) :: h_outs h) (h_outer h)).
+    set (s0 := mkSst (svars s) []).
+    change (begin_capture (Some []) (emb h s)) with (emb h2 s0).
+    assert (Hg2 : good h2 c cur) by exact Hg.
+    rewrite (HB false c cur body h2 s0 Hg2 eq_refl).
+    destruct (scl (SBody false c cur body) s0) as [s2| | |]; cbn [bind omap keep]; try reflexivity.
+    unfold end_capture. cbn [outs emb h2 h_top h_outs bind fst snd].
+    change (with_outs ((if h_top h then Some (sout s) else None) :: h_outs h) (emb h2 s2))
+      with (emb h (mkSst (svars s2) (sout s))).
+    rewrite set_var_emb. apply keep_omap.
 Qed.
 
 Lemma sim_list lvl0 q c cur h : good h c cur -> h_top h = negb q ->
@@ -996,26 +1008,33 @@ Proof.
 Qed.
 
 (* ------------------------------------------------------------------------------------ *)
-(* 7. an import exposes exactly the top-level names                                       *)
+(* 7. an import exposes exactly the top-level names, with the values the library assigned  *)
 (* ------------------------------------------------------------------------------------ *)
+Definition is_text (it : item) : bool := match it with IText _ => true | _ => false end.
 Definition is_simple (it : item) : bool :=
-  match it with IText _ | ISet _ _ | IMacro _ _ => true | _ => false end.
-Definition export_of (f : frame) (it : item) : frame :=
   match it with
-  | ISet x t => fset x (str_of t) f
-  | IMacro g body => fset g (VMacro body) f
-  | _ => f
+  | IText _ | ISet _ _ | IMacro _ _ => true
+  | ISetBlock _ body => forallb is_text body
+  | _ => false
   end.
-(* what a library of top-level set / macro statements defines, read off its text *)
-Definition exports_of (top : list item) : frame := fold_left export_of top [].
-Definition defines (x : name) (it : item) : bool :=
-  match it with ISet y _ | IMacro y _ => x =? y | _ => false end.
 Fixpoint texts_of (top : list item) : list Z :=
   match top with
   | [] => []
   | IText t :: r => t :: texts_of r
   | _ :: r => texts_of r
   end.
+(* [rt], [below]: the root value and the scopes of the importing template (a macro encloses from them) *)
+Definition export_of (rt : frame) (below : list frame) (f : frame) (it : item) : frame :=
+  match it with
+  | ISet x t => fset x (str_of t) f
+  | IMacro g body => fset g (VMacro body (closure_of (enclosed body) (mkVenv rt (f :: below)))) f
+  | ISetBlock x body => fset x (VStr (texts_of body)) f
+  | _ => f
+  end.
+(* what a library of top-level text / set / set-block / macro statements defines, read off its text *)
+Definition exports_of (rt : frame) (below : list frame) (top : list item) : frame := fold_left (export_of rt below) top [].
+Definition defines (x : name) (it : item) : bool :=
+  match it with ISet y _ | IMacro y _ | ISetBlock y _ => x =? y | _ => false end.
 
 Lemma assoc_fset k x v f : assoc k (fset x v f) = if k =? x then Some v else assoc k f.
 Proof.
@@ -1030,59 +1049,88 @@ Proof.
         -- exact IH.
 Qed.
 
-Lemma exports_keys_gen x : forall top f,
-  assoc x (fold_left export_of top f) <> None <-> (assoc x f <> None \/ existsb (defines x) top = true).
+Lemma exports_keys_gen rt below x : forall top f,
+  assoc x (fold_left (export_of rt below) top f) <> None <-> (assoc x f <> None \/ existsb (defines x) top = true).
 Proof.
   induction top as [|it r IH]; intros f; cbn [fold_left existsb].
   - split; [auto|intros [H|H]; [auto|discriminate]].
   - rewrite IH, orb_true_iff.
     assert (Hsame : forall (A B : Prop), (A \/ B) <-> (A \/ (false = true \/ B))).
     { intros A B. split; [intros [H|H]; auto|intros [H|[H|H]]; auto; discriminate]. }
-    destruct it; cbn [export_of defines]; try apply Hsame.
-    + rewrite assoc_fset. destruct (x =? x0); [|apply Hsame].
-      split; intros _; [right; left; reflexivity|left; discriminate].
-    + rewrite assoc_fset. destruct (x =? f0); [|apply Hsame].
-      split; intros _; [right; left; reflexivity|left; discriminate].
+    assert (Hset : forall y v, (assoc x (fset y v f) <> None \/ existsb (defines x) r = true) <->
+                               (assoc x f <> None \/ (x =? y) = true \/ existsb (defines x) r = true)).
+    { intros y v. rewrite assoc_fset. destruct (x =? y); [|apply Hsame].
+      split; intros _; [right; left; reflexivity|left; discriminate]. }
+    destruct it; cbn [export_of defines]; try apply Hsame; apply Hset.
 Qed.
 
-Lemma exports_keys_proof top x : assoc x (exports_of top) <> None <-> existsb (defines x) top = true.
+Lemma exports_keys_proof rt below top x : assoc x (exports_of rt below top) <> None <-> existsb (defines x) top = true.
 Proof. unfold exports_of. rewrite exports_keys_gen. cbn. split; [intros [H|H]; [congruence|auto]|auto]. Qed.
 
-Lemma slist_simple E scl lvl0 q c cur : forall top s fr r, forallb is_simple top = true -> frames (svars s) = fr :: r ->
-  slist E scl lvl0 q c cur top s =
-  Ok (mkSst (mkVenv (root (svars s)) (fold_left export_of top fr :: r)) (sout s ++ texts_of top)).
+Lemma slist_texts E scl lvl0 q c cur : forall body s, forallb is_text body = true ->
+  slist E scl lvl0 q c cur body s = Ok (mkSst (svars s) (sout s ++ texts_of body)).
+Proof.
+  induction body as [|it r IH]; intros s H; cbn [slist texts_of].
+  - rewrite app_nil_r. destruct s; reflexivity.
+  - cbn in H. apply andb_prop in H as [H1 H2]. destruct it; try discriminate. cbn [sstep bind].
+    rewrite IH by assumption. cbn. rewrite <- app_assoc. reflexivity.
+Qed.
+
+Lemma slist_simple E f lvl0 q c cur : forall top s fr r, forallb is_simple top = true -> frames (svars s) = fr :: r ->
+  slist E (scall E (S f)) lvl0 q c cur top s =
+  Ok (mkSst (mkVenv (root (svars s)) (fold_left (export_of (root (svars s)) r) top fr :: r)) (sout s ++ texts_of top)).
 Proof.
   induction top as [|it rest IH]; intros s fr r Hs Hf; cbn [slist fold_left texts_of].
   - rewrite app_nil_r, <- Hf. destruct s as [[rt fs] o]; reflexivity.
-  - cbn in Hs. apply andb_prop in Hs as [H1 H2]. destruct it; try discriminate; cbn [sstep bind export_of].
+  - cbn [forallb] in Hs. apply andb_prop in Hs as [H1 H2]. destruct it; try discriminate; cbn [sstep bind export_of].
     + rewrite (IH _ fr r H2) by exact Hf. cbn. rewrite <- app_assoc. reflexivity.
     + unfold sset, store. rewrite Hf. cbn [bind]. rewrite (IH _ (fset x (str_of s0) fr) r H2) by reflexivity. reflexivity.
-    + unfold sset, store. rewrite Hf. cbn [bind]. rewrite (IH _ (fset f (VMacro body) fr) r H2) by reflexivity. reflexivity.
+    + unfold sset, store. rewrite Hf. cbn [bind].
+      erewrite (IH _ _ r H2) by reflexivity. cbn [svars root sout].
+      assert (Hv : svars s = mkVenv (root (svars s)) (fr :: r)) by (rewrite <- Hf; destruct (svars s); reflexivity).
+      rewrite <- Hv. reflexivity.
+    + cbn [is_simple] in H1. cbn [scall]. rewrite slist_texts by exact H1. cbn [bind svars sout app].
+      unfold sset, store. cbn [svars]. rewrite Hf. cbn [bind]. erewrite (IH _ _ r H2) by reflexivity. reflexivity.
 Qed.
 
 Lemma parent_of_simple E v seen top : forallb is_simple top = true -> parent_of E v seen top None = Ok None.
 Proof. destruct top as [|it r]; [reflexivity|]. cbn. destruct it; try discriminate; reflexivity. Qed.
 
 Lemma import_simple_spec E f lvl0 q c cur n m top s : find_tmpl E n = Ok (Some top) -> forallb is_simple top = true ->
-  sstep E (scall E (S f)) lvl0 q c cur (IImport (NLit n) m) s = sset m (VModule (exports_of top)) s.
+  sstep E (scall E (S (S f))) lvl0 q c cur (IImport (NLit n) m) s =
+  sset m (VModule (exports_of (root (svars s)) (frames (svars s)) top) (texts_of top)) s.
 Proof.
   intros Ha Hs. cbn [sstep]. unfold import_scope, render_include. cbn [first_template eval_name bind svars spush].
   rewrite Ha. cbn [bind scall svars]. rewrite (parent_of_simple _ _ _ _ Hs). cbn [bind app].
-  erewrite (slist_simple E _ true false [top] None top _ [] (frames (svars s)) Hs) by reflexivity.
-  cbn [wrap_err bind svars frames root sout]. unfold exports_of.
+  erewrite (slist_simple E f true false [top] None top _ [] (frames (svars s)) Hs) by reflexivity.
+  cbn [wrap_err bind svars frames root sout app]. unfold exports_of.
   destruct s as [[rt fs] o]; reflexivity.
 Qed.
 
 Lemma import_exports_exact_proof E main n m top ctx fuel :
   wf_env E = true -> find_tmpl E main = Ok (Some [IImport (NLit n) m; IKeys m]) ->
   find_tmpl E n = Ok (Some top) -> forallb is_simple top = true ->
-  render fixed_code None (S (S fuel)) E main ctx = Ok (key_tokens (exports_of top)).
+  render fixed_code None (S (S (S fuel))) E main ctx = Ok (key_tokens (exports_of ctx [[]] top)).
 Proof.
   intros Hwf Hm Hn Hs. rewrite inherit_correct_proof by assumption. unfold srender. rewrite Hm.
   cbn [scall parent_of bind app slist].
   rewrite (import_simple_spec E fuel true false _ None n m top _ Hn Hs).
   unfold sset, store. cbn [svars frames bind sstep fset root sout].
   unfold lookup. cbn [frames lookup_frames assoc]. rewrite Z.eqb_refl. reflexivity.
+Qed.
+
+(* ... and the value found under an exported name is the value the library assigned *)
+Lemma import_exports_values_proof E main n m x top ctx fuel :
+  wf_env E = true -> find_tmpl E main = Ok (Some [IImport (NLit n) m; IPrintAttr m x]) ->
+  find_tmpl E n = Ok (Some top) -> forallb is_simple top = true ->
+  render fixed_code None (S (S (S fuel))) E main ctx = printed (assoc x (exports_of ctx [[]] top)).
+Proof.
+  intros Hwf Hm Hn Hs. rewrite inherit_correct_proof by assumption. unfold srender. rewrite Hm.
+  cbn [scall parent_of bind app slist].
+  rewrite (import_simple_spec E fuel true false _ None n m top _ Hn Hs).
+  unfold sset, store. cbn [svars frames bind sstep fset root sout].
+  unfold lookup. cbn [frames lookup_frames assoc]. rewrite Z.eqb_refl.
+  destruct (printed (assoc x (exports_of ctx [[]] top))); reflexivity.
 Qed.
 
 (* ------------------------------------------------------------------------------------ *)
@@ -1199,6 +1247,7 @@ Proof.
     destruct (assoc f kvs); [apply lrel_call_value|apply lrel_refl].
   - (* IKeys *) apply lrel_keep. destruct (lookup m (vars s)) as [[| | |kvs capm]|]; try apply lrel_refl;
       (apply lrel_bind; [apply lrel_push|intros; apply lrel_refl]).
+  - (* ISetBlock *) apply lrel_keep. apply lrel_bind; [apply HC|intros; apply lrel_refl].
 Qed.
 
 Lemma lrel_list lvl0 cur : forall its par s,
@@ -1373,6 +1422,8 @@ Proof.
     + apply bind_ok in H as (s1 & _ & H). inversion H; reflexivity.
     + apply bind_ok in H as (s1 & _ & H). eapply emit_outer; eassumption.
     + apply bind_ok in H as (s1 & _ & H). inversion H; reflexivity.
+  - apply keep_ok in H. apply bind_ok in H as (s2 & H2 & H). apply bind_ok in H as ([c3 s3] & H3 & H).
+    apply HCb in H2. apply end_capture_outer in H3. apply set_var_outer in H. cbn in H, H2. congruence.
 Qed.
 
 Lemma ilist_outer lvl0 cur : forall its par s p s', ilist Q lim E call lvl0 cur its par s = Ok (p, s') -> outer s' = outer s.
@@ -1506,6 +1557,8 @@ Proof.
     + apply bind_ok in H as (s1 & _ & H). inversion H; reflexivity.
     + apply bind_ok in H as (s1 & _ & H). eapply emit_loaded; eassumption.
     + apply bind_ok in H as (s1 & _ & H). inversion H; reflexivity.
+  - apply bind_ok in H as (s2 & H2 & H). apply bind_ok in H as ([c3 s3] & H3 & H).
+    apply HCr in H2. apply end_capture_loaded in H3. apply set_var_loaded in H. cbn in H, H2. congruence.
 Qed.
 
 (* an extends tag that gets executed while a parent is already stashed is an error; one that is not
